@@ -287,7 +287,10 @@ def run_special(cfg, seed, scenario):
     'local-close:c' / 'local-close:s' — a forceful local close() issued by one task while other tasks of the same application
         are blocked in recv / recv_unreliable on that connection;
     'refused:<why>' — a keyed server refuses the client's login (why = wrong-key | expired | garbage), then the same address
-        connects again with a valid ticket.
+        connects again with a valid ticket;
+    'handler-raises:<when>' — the server application's handler ends with an exception (when = eof: a plain `while True: recv()`
+        loop lets end-of-stream escape when the client disconnects | reject: it raises on the first request), then the same
+        address connects again.
     Same result shape as run()."""
     rng = random.Random(seed)
     out = ps.Session()
@@ -402,6 +405,22 @@ def run_special(cfg, seed, scenario):
             out.handler_started = True
             out.server_pid = client.pid()
             out.rnd["s"] = (client.sequence_mgr.initial_unreliable_id, client.connection_check, client.local_session_id)
+            if kind == "handler-raises":
+                hi = op_start("handler")
+                try:
+                    while True:
+                        try:
+                            d = await client.recv(0)
+                        except anyio.EndOfStream:
+                            log.append(("eof", sim.now(), "s", 0))
+                            raise
+                        out.got[("s", 0)].append(d)
+                        log.append(("deliver", sim.now(), "s", 0, d))
+                        if arg == "reject":
+                            raise ValueError("malformed request")
+                finally:
+                    log.append(("app", sim.now(), "s", "raised", 0, b""))
+                    op_end(hi, "raised")
             hi = op_start("handler")
             async with anyio.create_task_group() as tg:
                 tg.start_soon(ureader, "s", client)
@@ -430,6 +449,12 @@ def run_special(cfg, seed, scenario):
                                 await send("c", client, b"hello " * 5)
                                 if scenario == "local-close:c":
                                     await closer("c", client, 0.2617)
+                                if scenario == "handler-raises:eof":
+                                    await anyio.sleep(quant(0.2617))
+                                    di = op_start("disconnect")
+                                    log.append(("app", sim.now(), "c", "disconnect", 0, b""))
+                                    await client.disconnect()
+                                    op_end(di, "returned")
                                 # the readers end with EOF once the connection is closed (by us or by the peer)
                             await late_recv("c", client)
                             await send("c", client, b"late")
